@@ -155,6 +155,122 @@ pub fn with_child(n: &Node, i: usize, new_child: Node) -> Node {
     c
 }
 
+/// English A1 text of a tree with every operator operand in parentheses (independent of the engine's printer
+/// for the operator structure; leaves are printed by the engine).
+pub fn paren_text(n: &Node, cx: &CellReferenceRC) -> String {
+    use ironcalc_base::expressions::parser::stringify::to_localized_string;
+    let wrap = |c: &Node| {
+        let t = paren_text(c, cx);
+        match c {
+            Node::OpConcatenateKind { .. }
+            | Node::OpSumKind { .. }
+            | Node::OpProductKind { .. }
+            | Node::OpPowerKind { .. }
+            | Node::CompareKind { .. }
+            | Node::UnaryKind { .. } => format!("({})", t),
+            _ => t,
+        }
+    };
+    match n {
+        Node::OpConcatenateKind { left, right } => format!("{}&{}", wrap(left), wrap(right)),
+        Node::OpSumKind { kind, left, right } => format!("{}{}{}", wrap(left), kind, wrap(right)),
+        Node::OpProductKind { kind, left, right } => format!("{}{}{}", wrap(left), kind, wrap(right)),
+        Node::OpPowerKind { left, right } => format!("{}^{}", wrap(left), wrap(right)),
+        Node::CompareKind { kind, left, right } => format!("{}{}{}", wrap(left), kind, wrap(right)),
+        Node::UnaryKind { kind, right } => match kind {
+            OpUnary::Minus => format!("-{}", wrap(right)),
+            OpUnary::Percentage => format!("{}%", wrap(right)),
+        },
+        Node::FunctionKind { kind, args } => format!(
+            "{}({})",
+            kind.to_localized_name(lang("en")),
+            args.iter().map(|a| paren_text(a, cx)).collect::<Vec<_>>().join(",")
+        ),
+        other => to_localized_string(other, cx, loc("en"), lang("en")),
+    }
+}
+
+/// Applies `f` to every node of the tree, parents before children.
+pub fn walk_mut(n: &mut Node, f: &mut dyn FnMut(&mut Node)) {
+    f(n);
+    for c in children_mut(n) {
+        walk_mut(c, f);
+    }
+}
+
+/// Where two trees first differ, as a short class: kinds of the two nodes with one level of children, or the
+/// differing aspect of a leaf. None if equal.
+pub fn divergence(want: &Node, got: &Node) -> Option<String> {
+    if want == got {
+        return None;
+    }
+    let kw = kind(want);
+    let kg = kind(got);
+    let cw = children(want);
+    let cg = children(got);
+    if kw == kg && cw.len() == cg.len() && !cw.is_empty() {
+        for ((_, a), (_, b)) in cw.iter().zip(cg.iter()) {
+            if a != b {
+                // descend only if the children have the same kind; otherwise this node is the place
+                if kind(a) == kind(b) && !children(a).is_empty() {
+                    return divergence(a, b);
+                }
+                let d = |n: &Node, cs: &Vec<(String, &Node)>| {
+                    format!("{}[{}]", kd(n), cs.iter().map(|(_, c)| kd(c)).collect::<Vec<_>>().join(","))
+                };
+                if kind(a) == kind(b) {
+                    return divergence(a, b);
+                }
+                return Some(format!("want={} got={}", d(want, &cw), d(got, &cg)));
+            }
+        }
+    }
+    if kw == kg && cw.is_empty() && cg.is_empty() {
+        // same leaf kind, different content
+        let aspect = match (want, got) {
+            (
+                Node::ReferenceKind { sheet_index: s1, row: r1, column: c1, absolute_row: ar1, absolute_column: ac1, .. },
+                Node::ReferenceKind { sheet_index: s2, row: r2, column: c2, absolute_row: ar2, absolute_column: ac2, .. },
+            ) => {
+                if s1 != s2 {
+                    "sheet"
+                } else if r1 != r2 || c1 != c2 {
+                    "cell"
+                } else if ar1 != ar2 || ac1 != ac2 {
+                    "flags"
+                } else {
+                    "sheet-name"
+                }
+            }
+            (Node::RangeKind { sheet_index: s1, .. }, Node::RangeKind { sheet_index: s2, .. }) => {
+                if s1 != s2 {
+                    "sheet"
+                } else {
+                    "corners"
+                }
+            }
+            _ => "content",
+        };
+        return Some(format!("leaf={} differs={}", kd(want), aspect));
+    }
+    let d = |n: &Node, cs: &Vec<(String, &Node)>| {
+        if cs.is_empty() {
+            kd(n)
+        } else {
+            format!("{}[{}]", kd(n), cs.iter().map(|(_, c)| kd(c)).collect::<Vec<_>>().join(","))
+        }
+    };
+    Some(format!("want={} got={}", d(want, &cw), d(got, &cg)))
+}
+
+/// Kind for signatures: comparison operators are one class; `*` (the matcher's wildcard) is spelled `×`.
+pub fn kd(n: &Node) -> String {
+    match n {
+        Node::CompareKind { .. } => "Compare".into(),
+        other => kind(other).replace('*', "×"),
+    }
+}
+
 /// Removes every implicit-intersection operator (keeps its operand).
 pub fn strip_ii(n: &mut Node) {
     while let Node::ImplicitIntersection { child, .. } = n {
